@@ -265,3 +265,58 @@ void drv_alias_qf(int tier, unsigned long seed, const char *extra) {
     }
   }
 }
+
+/* ---- random call histories over a pool of rationals and floats (C04/C12/C13: every SEQUENCE of valid calls): 4 rationals, 4 floats of
+   different precisions, 4 integers; steps draw any mpq/mpf function of the table with a random binding of variables (aliasing included),
+   interleaved with clear/init (floats: a new precision), swap, mpf_set_prec, and fresh operand values.  Rationals are kept canonical as the
+   manual requires (functions that store a raw numerator/denominator are followed by mpq_canonicalize). */
+void drv_hist_qf(int tier, unsigned long seed, const char *extra) {
+  shard_t sh = shard_parse(extra); long x, nexec = sh.pure ? 4 : (tier ? 1500 : 240); int steps = sh.pure ? 10 : 36;
+  static const int precs[] = {64, 128, 192, 320, 640};
+  const api_fn *cands[200]; int nc = 0, fi;
+  for (fi = 0; fi < api_count; fi++) { const api_fn *f = &api_table[fi]; if (!skip_qf(f) && want(&sh, f->name) && !has(f->name, "swap") && !has(f->name, "canonicalize")) cands[nc++] = f; }
+  for (x = 0; x < nexec; x++) {
+    int i, s, sig = 0;
+    if (!MINE(sh, x)) continue;
+    rnd_seed(seed * 1000033UL + x);
+    rec_reset("hist_qf", x, seed);
+    for (i = 0; i < 8; i++) callf("mpz_init", i);
+    for (i = 0; i < 4; i++) { callf("mpq_init", i); callf("mpf_init2", i, (uint64_t)precs[rnd_below(5)]); }
+    for (i = 0; i < 4; i++) { setq_rand(i, (int)rnd_below(2)); setf_rand(i, 0); }
+    for (s = 0; s < steps && !sig; s++) {
+      int what = (int)rnd_below(12);
+      if (what == 0) { int v = (int)rnd_below(4); callf("mpq_clear", v); callf("mpq_init", v); setq_rand(v, (int)rnd_below(2)); }
+      else if (what == 1) { int v = (int)rnd_below(4); callf("mpf_clear", v); callf("mpf_init2", v, (uint64_t)precs[rnd_below(5)]); setf_rand(v, 0); }
+      else if (what == 2) { if (rnd_below(2)) callf("mpq_swap", (int)rnd_below(4), (int)rnd_below(4)); else callf("mpf_swap", (int)rnd_below(4), (int)rnd_below(4)); }
+      else if (what == 3) { callf("mpf_set_prec", (int)rnd_below(4), (uint64_t)precs[rnd_below(5)]); }
+      else if (what == 4) { if (rnd_below(2)) setq_rand((int)rnd_below(4), (int)rnd_below(2)); else setf_rand((int)rnd_below(4), 0); }
+      else {
+        const api_fn *f = cands[rnd_below(nc)]; arg_t a[8]; int var[8], used_out[8], no = 0, ok = 1, j, isF = !strncmp(f->name, "mpf_", 4), qraw = -1;
+        memset(a, 0, sizeof a);
+        for (i = 0; i < f->nargs; i++) { a[i].kind = f->kinds[i]; var[i] = 0;
+          if (is_q(f->kinds[i]) || is_f(f->kinds[i])) { int v = (int)rnd_below(4);
+            if (is_out(f->kinds[i])) { for (j = 0; j < no; j++) if (used_out[j] == v) ok = 0; used_out[no++] = v; if (is_q(f->kinds[i])) qraw = v; }
+            var[i] = v; }
+          else switch (f->kinds[i]) {
+            case K_U: a[i].u = rnd_below(3) ? UIS[rnd_below(12)] : rnd64() >> rnd_below(64);
+              if ((has(f->name, "div_ui") || (!isF && i == 2 && (has(f->name, "set_ui") || has(f->name, "set_si") || has(f->name, "cmp_ui") || has(f->name, "cmp_si")))) && a[i].u == 0) a[i].u = 3; break;
+            case K_S: a[i].s = SIS[rnd_below(11)]; break;
+            case K_B: a[i].u = gen_b(f->name); if (has(f->name, "mpf_eq") && a[i].u == 0) a[i].u = 1 + rnd_below(200); break;
+            case K_D: a[i].d = DS[rnd_below(11)]; break;
+            case K_ZI: callf("drv_rndz", 5, gen_limbs((int)rnd_below(2)), 0, (int)rnd_below(2)); if (has(f->name, "set_den") && SIZ(Zp[5]) == 0) callf("mpz_set_ui", 5, (uint64_t)2); var[i] = 5; break;
+            case K_ZO: var[i] = 4; break; default: break; } }
+        if (!ok) continue;
+        if (has(f->name, "sqrt") && isF && !has(f->name, "sqrt_ui")) { int u = var[f->nargs - 1]; if (SIZ(Fp[u]) < 0) callf("mpf_abs", u, u); }
+        /* keep sizes bounded: a long rational is replaced by a fresh one */
+        for (i = 0; i < 4; i++) if (ABSIZ(mpq_numref(Qp[i])) + ABSIZ(mpq_denref(Qp[i])) > 60) setq_rand(i, 0);
+        { ret_t r; for (i = 0; i < f->nargs; i++) if (is_obj_kind(f->kinds[i])) a[i].idx = var[i]; sig = do_call(f, a, &r); if (f->rkind == RT_STR && r.str) rec_free_str(r.str); }
+        if (sig) break;                                   /* arithmetic signal (division by zero, root of a negative): the execution is abandoned */
+        if (!isF && qraw >= 0 && (has(f->name, "set_num") || has(f->name, "set_den") || has(f->name, "set_ui") || has(f->name, "set_si") || has(f->name, "set_str"))) callf("mpq_canonicalize", qraw);
+      }
+    }
+    if (sig) continue;
+    for (i = 0; i < 8; i++) callf("mpz_clear", i);
+    for (i = 0; i < 4; i++) { callf("mpq_clear", i); callf("mpf_clear", i); }
+    rec_quiesce();
+  }
+}
